@@ -2139,11 +2139,16 @@ namespace bloch::runtime {
                 return v;  // empty, default as int[] when untyped
             }
             Value first = eval(arr->elements[0].get());
+            // The first element has just been evaluated to pick the array type; reuse that value
+            // instead of evaluating the expression (and its side effects) a second time.
+            auto elementValue = [&](const std::unique_ptr<Expression>& el) -> Value {
+                return (&el == &arr->elements[0]) ? first : eval(el.get());
+            };
             switch (first.type) {
                 case Value::Type::Bit:
                     v.type = Value::Type::BitArray;
                     for (auto& el : arr->elements) {
-                        Value ev = eval(el.get());
+                        Value ev = elementValue(el);
                         if (ev.type != Value::Type::Bit)
                             throw BlochError(ErrorCategory::Runtime, el->line, el->column,
                                              "inconsistent element types in array literal");
@@ -2153,7 +2158,7 @@ namespace bloch::runtime {
                 case Value::Type::Boolean:
                     v.type = Value::Type::BooleanArray;
                     for (auto& el : arr->elements) {
-                        Value ev = eval(el.get());
+                        Value ev = elementValue(el);
                         if (ev.type != Value::Type::Boolean)
                             throw BlochError(ErrorCategory::Runtime, el->line, el->column,
                                              "inconsistent element types in array literal");
@@ -2163,7 +2168,7 @@ namespace bloch::runtime {
                 case Value::Type::Int:
                     v.type = Value::Type::IntArray;
                     for (auto& el : arr->elements) {
-                        Value ev = eval(el.get());
+                        Value ev = elementValue(el);
                         if (ev.type != Value::Type::Int && ev.type != Value::Type::Bit)
                             throw BlochError(ErrorCategory::Runtime, el->line, el->column,
                                              "inconsistent element types in array literal");
@@ -2174,7 +2179,7 @@ namespace bloch::runtime {
                 case Value::Type::Long:
                     v.type = Value::Type::LongArray;
                     for (auto& el : arr->elements) {
-                        Value ev = eval(el.get());
+                        Value ev = elementValue(el);
                         if (ev.type != Value::Type::Long && ev.type != Value::Type::Int &&
                             ev.type != Value::Type::Bit)
                             throw BlochError(ErrorCategory::Runtime, el->line, el->column,
@@ -2190,7 +2195,7 @@ namespace bloch::runtime {
                 case Value::Type::Float:
                     v.type = Value::Type::FloatArray;
                     for (auto& el : arr->elements) {
-                        Value ev = eval(el.get());
+                        Value ev = elementValue(el);
                         if (ev.type != Value::Type::Float && ev.type != Value::Type::Int &&
                             ev.type != Value::Type::Long && ev.type != Value::Type::Bit)
                             throw BlochError(ErrorCategory::Runtime, el->line, el->column,
@@ -2208,7 +2213,7 @@ namespace bloch::runtime {
                 case Value::Type::String:
                     v.type = Value::Type::StringArray;
                     for (auto& el : arr->elements) {
-                        Value ev = eval(el.get());
+                        Value ev = elementValue(el);
                         if (ev.type != Value::Type::String)
                             throw BlochError(ErrorCategory::Runtime, el->line, el->column,
                                              "inconsistent element types in array literal");
@@ -2218,7 +2223,7 @@ namespace bloch::runtime {
                 case Value::Type::Char:
                     v.type = Value::Type::CharArray;
                     for (auto& el : arr->elements) {
-                        Value ev = eval(el.get());
+                        Value ev = elementValue(el);
                         if (ev.type != Value::Type::Char)
                             throw BlochError(ErrorCategory::Runtime, el->line, el->column,
                                              "inconsistent element types in array literal");
